@@ -159,7 +159,10 @@ def derive(fi: FuncInfo, expr: ast.AST, sources: Iterable[str], passthrough: Opt
                     go(e.args[idx])
                 return
             if isinstance(e.func, ast.Attribute) and name in ("split", "rsplit") and e.args:
-                steps.append(Step("element", e, "pieces between delimiters"))
+                if len(e.args) > 1 or e.keywords:
+                    steps.append(Step("lossy", e, "split bounded by maxsplit (the last piece still contains delimiters and the pieces after them)"))
+                else:
+                    steps.append(Step("element", e, "pieces between delimiters"))
                 go(e.func.value)
                 return
             if isinstance(e.func, ast.Attribute) and name in LOSSY:
@@ -175,7 +178,10 @@ def derive(fi: FuncInfo, expr: ast.AST, sources: Iterable[str], passthrough: Opt
     def go_iter(it: ast.AST):
         # element of an iterable: X.split(delim) -> X ; a local list -> its elements
         if isinstance(it, ast.Call) and isinstance(it.func, ast.Attribute) and it.func.attr in ("split", "rsplit") and it.args:
-            steps.append(Step("element", it, "piece between delimiters"))
+            if len(it.args) > 1 or it.keywords:
+                steps.append(Step("lossy", it, "split bounded by maxsplit (the last piece still contains delimiters and the pieces after them)"))
+            else:
+                steps.append(Step("element", it, "piece between delimiters"))
             go(it.func.value)
             return
         go(it)
